@@ -6,6 +6,8 @@
   and positions (including shared boundaries) — and judges every output with `validSTB`.
 -/
 import MocVerif.Lemmas.ST
+import MocVerif.Lemmas.Consistent2D
+import MocVerif.Lemmas.FlatNormal
 
 namespace Moc.C08
 
@@ -46,5 +48,60 @@ theorem valid_elements_disjoint (e f : List Rng × List Rng) (he : Canon e.1) (h
 /-! Non-vacuity -/
 example : validSTB [([(0, 4), (8, 12)], [(0, 2)]), ([(12, 16)], [(1, 3)])] = true := by decide
 example : validSTB [([(0, 8)], [(0, 2)]), ([(4, 12)], [(1, 3)])] = false := by decide
+
+/-- All the (time range, coverage) products of an ST-MOC. -/
+def flatOfST (a : STMoc) : FlatST := a.flatMap fun e => e.1.map fun r => (r, e.2)
+
+theorem mem_flatOfST (a : STMoc) (x : Rng × List Rng) : x ∈ flatOfST a ↔ ∃ e ∈ a, x.1 ∈ e.1 ∧ x.2 = e.2 := by
+  unfold flatOfST
+  simp only [List.mem_flatMap, List.mem_map]
+  constructor
+  · rintro ⟨e, he, r, hr, rfl⟩; exact ⟨e, he, hr, rfl⟩
+  · rintro ⟨e, he, hr, hx⟩
+    refine ⟨e, he, x.1, hr, ?_⟩
+    rw [← hx]
+
+/-- **A verified union exists in the library**: flattening both operands into (time range, coverage) entries and
+    running the range-2D construction (`make_consistent`, proved in C09) gives a VALID flat space-time coverage
+    covering exactly the pairs covered by `A` or by `B` — for all operands whose time ranges are non-empty and whose
+    coverages are non-empty and canonical (no ordering or disjointness assumption on the elements). -/
+theorem st_union_reference (a b : STMoc)
+    (ha : ∀ e ∈ a, (∀ r ∈ e.1, r.1 < r.2) ∧ Canon e.2 ∧ e.2 ≠ [])
+    (hb : ∀ e ∈ b, (∀ r ∈ e.1, r.1 < r.2) ∧ Canon e.2 ∧ e.2 ≠ []) :
+    validFlatB (Merge2D.toST (Consistent2D.makeConsistent (flatOfST a ++ flatOfST b))) = true ∧
+    ∀ t s, memST t s (Merge2D.toST (Consistent2D.makeConsistent (flatOfST a ++ flatOfST b))) ↔
+      memST t s a ∨ memST t s b := by
+  have hent : ∀ x ∈ flatOfST a ++ flatOfST b, x.1.1 < x.1.2 ∧ Canon x.2 ∧ x.2 ≠ [] := by
+    intro x hx
+    rcases List.mem_append.1 hx with hx | hx
+    · obtain ⟨e, he, hr, hx2⟩ := (mem_flatOfST a x).1 hx
+      have := ha e he
+      rw [hx2]; exact ⟨this.1 _ hr, this.2.1, this.2.2⟩
+    · obtain ⟨e, he, hr, hx2⟩ := (mem_flatOfST b x).1 hx
+      have := hb e he
+      rw [hx2]; exact ⟨this.1 _ hr, this.2.1, this.2.2⟩
+  have sp := Consistent2D.makeConsistent_spec _ hent
+  refine ⟨Merge2D.validFlatB_of_VF _ 0 none sp.1, fun t s => ?_⟩
+  rw [Merge2D.memST_toST, sp.2 t s]
+  have key : ∀ (m : STMoc), (∃ x ∈ flatOfST m, x.1.1 ≤ t ∧ t < x.1.2 ∧ mem s x.2) ↔ memST t s m := by
+    intro m
+    unfold memST
+    constructor
+    · rintro ⟨x, hx, h1, h2, h3⟩
+      obtain ⟨e, he, hr, hx2⟩ := (mem_flatOfST m x).1 hx
+      exact ⟨e, he, (mem_iff_exists t e.1).2 ⟨x.1, hr, h1, h2⟩, by rw [← hx2]; exact h3⟩
+    · rintro ⟨e, he, ht, hs⟩
+      obtain ⟨r, hr, h1, h2⟩ := (mem_iff_exists t e.1).1 ht
+      exact ⟨(r, e.2), (mem_flatOfST m _).2 ⟨e, he, hr, rfl⟩, h1, h2, hs⟩
+  rw [← key a, ← key b]
+  constructor
+  · rintro ⟨x, hx, h⟩
+    rcases List.mem_append.1 hx with hx | hx
+    · exact Or.inl ⟨x, hx, h⟩
+    · exact Or.inr ⟨x, hx, h⟩
+  · rintro (⟨x, hx, h⟩ | ⟨x, hx, h⟩)
+    · exact ⟨x, List.mem_append_left _ hx, h⟩
+    · exact ⟨x, List.mem_append_right _ hx, h⟩
+
 
 end Moc.C08
